@@ -112,7 +112,7 @@ func runSrcFacts(o *Options) *Result {
 	_, _ = conf.Check("dyntpl", fset, files, info)
 
 	var sb strings.Builder
-	sb.WriteString("(* GENERATED from /repo's current source by harness/srcfacts.go on every run. *)\nFrom Coq Require Import List String Bool.\nImport ListNotations.\nOpen Scope string_scope.\n")
+	sb.WriteString("(* GENERATED from /repo's current source by harness/srcfacts.go on every run. *)\nFrom Coq Require Import List String Bool ZArith.\nImport ListNotations.\nOpen Scope string_scope.\n")
 	sb.WriteString("Inductive lockk := NoLock | RLock | WLock.\nRecord dbm := mkDbm { dm_name : string; dm_lock : lockk; dm_reads : bool; dm_writes : bool; dm_callees : list string }.\n")
 
 	// (a) methods of *db
@@ -391,6 +391,65 @@ func runSrcFacts(o *Options) *Result {
 		bl = append(bl, fmt.Sprintf("(%q, %q, %s)", b.fn, b.idx, gList(fs)))
 	}
 	fmt.Fprintf(&sb, "Definition slot_blocks : list (string * string * list string) := %s.\n", gList(bl))
+	// (f) inventories: node type constants (in order), error values with their messages,
+	// modifiers registered by the library's init (name, alias, namespace)
+	var nodeTypes, errVals, mods []string
+	for _, af := range files {
+		for _, d := range af.Decls {
+			if gd, ok := d.(*ast.GenDecl); ok {
+				for _, sp := range gd.Specs {
+					vs, ok := sp.(*ast.ValueSpec)
+					if !ok {
+						continue
+					}
+					for i, n := range vs.Names {
+						if gd.Tok == token.CONST && strings.HasPrefix(n.Name, "type") {
+							if obj, ok := info.Defs[n].(*types.Const); ok && namedOf(obj.Type()) == "rtype" {
+								nodeTypes = append(nodeTypes, fmt.Sprintf("(%q, %s%%Z)", n.Name, obj.Val().ExactString()))
+							}
+						}
+						if gd.Tok == token.VAR && strings.HasPrefix(n.Name, "Err") && i < len(vs.Values) {
+							if call, ok := vs.Values[i].(*ast.CallExpr); ok && len(call.Args) == 1 {
+								if lit, ok := call.Args[0].(*ast.BasicLit); ok && lit.Kind == token.STRING {
+									errVals = append(errVals, fmt.Sprintf("(%q, %s)", n.Name, lit.Value))
+								}
+							}
+						}
+					}
+				}
+			}
+			fd, ok := d.(*ast.FuncDecl)
+			if !ok || fd.Body == nil || fd.Name.Name != "init" {
+				continue
+			}
+			ast.Inspect(fd.Body, func(n ast.Node) bool {
+				call, ok := n.(*ast.CallExpr)
+				if !ok {
+					return true
+				}
+				id, ok := call.Fun.(*ast.Ident)
+				if !ok {
+					return true
+				}
+				str := func(e ast.Expr) string {
+					if l, ok := e.(*ast.BasicLit); ok && l.Kind == token.STRING {
+						return strings.Trim(l.Value, "\"")
+					}
+					return "?"
+				}
+				switch {
+				case id.Name == "RegisterModFn" && len(call.Args) >= 2:
+					mods = append(mods, fmt.Sprintf("(%q, %q, %q)", "", str(call.Args[0]), str(call.Args[1])))
+				case id.Name == "RegisterModFnNS" && len(call.Args) >= 3:
+					mods = append(mods, fmt.Sprintf("(%q, %q, %q)", str(call.Args[0]), str(call.Args[1]), str(call.Args[2])))
+				}
+				return true
+			})
+		}
+	}
+	fmt.Fprintf(&sb, "Definition node_types : list (string * Z) := %s.\n", gList(nodeTypes))
+	fmt.Fprintf(&sb, "Definition error_values : list (string * string) := %s.\n", gList(errVals))
+	fmt.Fprintf(&sb, "Definition registered_mods : list (string * string * string) := %s.\n", gList(mods))
 	if err := os.WriteFile(o.WorkDir+"/SrcFacts.v", []byte(sb.String()), 0o644); err != nil {
 		res.InfraError = err.Error()
 	}
